@@ -568,6 +568,9 @@ def rename(table: Table, name_map: dict[str | Col | ColName, str]) -> Pipeable:
             )
 
     name_map = {(preprocess_arg(k, table) if isinstance(k, ColName | Col) else k): v for k, v in name_map.items()}
+    for k in name_map:
+        if isinstance(k, Col) and k._uuid not in table._cache.uuid_to_name:
+            raise ValueError(f"cannot rename the column `{k.ast_repr()}`, which is not selected in `{table._ast.short_name()}`")
     name_map = {(table._cache.uuid_to_name[k._uuid] if isinstance(k, Col) else k): v for k, v in name_map.items()}
 
     if d := set(name_map).difference(table._cache.name_to_uuid):
